@@ -1,4 +1,5 @@
 import Driver.Scheme
+import Heathcliff.Model.Evaluator
 namespace Drv.C02
 open HC Drv Drv.Sch
 
@@ -25,6 +26,14 @@ def handle (fn : String) : Handler := fun a _impl =>
         else if dec = want then fList want
         else s!"RELFAIL(exact decryption {fList dec} differs from the program value; exact budget {b}, predicted {pred})"
       some (model, spec)
+  | "balance", [f1, f2, t] =>
+    let f1 := pNat f1; let f2 := pNat f2; let t := pNat t
+    let model := fR (fun (r : Nat × Nat × Nat) => s!"{r.1},{r.2.1},{r.2.2}") (do let m ← Modulus.mk? t; balanceCorrectionFactors f1 f2 m)
+    -- relational spec: e1·f1 ≡ e2·f2 ≡ f (mod t), e1 a unit
+    let spec := match (pList _impl) with
+      | [f, e1, e2] => relSpec _impl ((e1 * f1) % t = f ∧ (e2 * f2) % t = f ∧ Nat.gcd e1 t = 1 ∧ f < t) "balanced factors"
+      | _ => if Nat.gcd f1 t = 1 then "RELFAIL(balance must succeed for an invertible factor)" else "ERR:refused"
+    some (model, spec)
   | _, _ => none
 
 end Drv.C02
